@@ -446,6 +446,7 @@ extern "C" int engineexport_initialize_graph (
 
 extern "C" int engineexport_run(int breathe_dt)
     {
+    if(global_algo_freed) return 0; // no simulation is set up (never initialized, or finalized)
     bool unfinished = true;
     auto t0 = std::chrono::system_clock::now();
     for(;;)
@@ -461,6 +462,7 @@ extern "C" int engineexport_run(int breathe_dt)
 
 extern "C" int engineexport_iterate_n(int n_iterations)
     {
+    if(global_algo_freed) return 0; // no simulation is set up (never initialized, or finalized)
     bool unfinished = true;
     for(int i=0; i<n_iterations; i++)
         {
@@ -474,6 +476,7 @@ extern "C" int engineexport_iterate_n(int n_iterations)
 
 extern "C" int engineexport_iterate()
     {
+    if(global_algo_freed) return 0; // no simulation is set up (never initialized, or finalized)
     bool unfinished = true;
     if      (global_space_type == 0) unfinished = global_grid_algo->Iterate();
     else if (global_space_type == 1) unfinished = global_graph_algo->Iterate();
@@ -482,6 +485,7 @@ extern "C" int engineexport_iterate()
 
 extern "C" double engineexport_get_progress()
     {
+    if(global_algo_freed) return 0; // no simulation is set up (never initialized, or finalized)
     //return t/tmax
     double progress=0;
     if      (global_space_type == 0) progress = global_grid_algo->GetProgress();
@@ -491,6 +495,7 @@ extern "C" double engineexport_get_progress()
 
 extern "C" int engineexport_get_trajectory(double * trajectory_data)
     {
+    if(global_algo_freed) return 0; // no simulation is set up (never initialized, or finalized)
     if (global_space_type == 0)
       {
 
@@ -537,6 +542,7 @@ extern "C" int engineexport_get_trajectory(double * trajectory_data)
 
 extern "C" int engineexport_get_state(double * state_data)
     {
+    if(global_algo_freed) return 0; // no simulation is set up (never initialized, or finalized)
     if (global_space_type == 0)
       {
       int n_species = global_grid_algo->NSpecies();
@@ -577,6 +583,7 @@ extern "C" int engineexport_get_state(double * state_data)
 
 extern "C" double engineexport_get_time()
     {
+    if(global_algo_freed) return 0; // no simulation is set up (never initialized, or finalized)
     if (global_space_type == 0)
       return global_grid_algo->GetT();
     else
@@ -585,6 +592,7 @@ extern "C" double engineexport_get_time()
 
 extern "C" int engineexport_get_tsample(double * t_sample)
     {
+    if(global_algo_freed) return 0; // no simulation is set up (never initialized, or finalized)
     if (global_space_type == 0)
       {
       std::vector<double> & t_sample_vec = global_grid_algo->GetSampledT();
@@ -616,6 +624,7 @@ extern "C" int engineexport_get_tsample(double * t_sample)
 
 extern "C" int engineexport_get_nsamples()
     {
+    if(global_algo_freed) return 0; // no simulation is set up (never initialized, or finalized)
     if (global_space_type == 0)
       return global_grid_algo->NSamples();
     else
@@ -624,6 +633,7 @@ extern "C" int engineexport_get_nsamples()
 
 extern "C" int engineexport_sample()
     {
+    if(global_algo_freed) return 0; // no simulation is set up (never initialized, or finalized)
     if (global_space_type == 0)
       global_grid_algo->Sample();
     else
